@@ -45,6 +45,9 @@ FLOATS = "fde"
 CINT_FN = {"b": ["int8", "char"], "n": ["int16"], "i": ["int32", "int"], "x": ["int64", "long"], "l": ["long"],
            "y": ["uint8", "uchar"], "q": ["uint16"], "u": ["uint32", "uint"], "t": ["uint64", "ulong"]}
 DRV_TIMEOUT = 900
+# several JVMs run side by side: keep their collector/compiler thread pools small
+JVM_SMALL = {"JAVA_TOOL_OPTIONS": "-XX:ParallelGCThreads=2 -XX:CICompilerCount=2"}
+JVM_MID = {"JAVA_TOOL_OPTIONS": "-XX:ParallelGCThreads=4 -XX:CICompilerCount=3"}
 
 
 # --------------------------------------------------------------------------
@@ -417,7 +420,8 @@ def validate_events(events, nchunks, tag):
     def one(sp):
         off, evs = sp
         import re
-        ok, matched, res = vlib.validate_trace("Trace_Convert", evs, tag="%s-%d" % (tag, off), xss="1g", timeout=1400)
+        ok, matched, res = vlib.validate_trace("Trace_Convert", evs, tag="%s-%d" % (tag, off), xss="1g", timeout=1400,
+                                               extra_env=JVM_SMALL)
         rej = [int(x) - 1 + off for x in re.findall(r'<<"REJECT", (\d+)>>', res.out)]
         if matched != len(evs):
             raise vlib.MachineryError("trace validation stopped at event %d of %d:\n%s" % (matched, len(evs), res.out[-2000:]))
@@ -461,11 +465,11 @@ def run(tier):
     pool = ThreadPoolExecutor(max_workers=6)
 
     # 1. model level: limb arithmetic against TLC integers; design => meaning on scaled types
-    f_bn4 = pool.submit(vlib.tlc, "MC_BigNat", cfg["bn"][0], 4, tag="MC_BigNat4")
-    f_bn16 = pool.submit(vlib.tlc, "MC_BigNat", cfg["bn"][1], 4, tag="MC_BigNat16")
-    f_mc = pool.submit(vlib.tlc, "MC_Convert", cfg["mc"], 8, xss="256m", tag="MC_Convert")
+    f_bn4 = pool.submit(vlib.tlc, "MC_BigNat", cfg["bn"][0], 2, tag="MC_BigNat4", env=JVM_SMALL)
+    f_bn16 = pool.submit(vlib.tlc, "MC_BigNat", cfg["bn"][1], 2, tag="MC_BigNat16", env=JVM_SMALL)
+    f_mc = pool.submit(vlib.tlc, "MC_Convert", cfg["mc"], 8, xss="256m", tag="MC_Convert", env=JVM_MID)
     # 2. binding A: cases + admissible result sets enumerated by TLC at the real widths
-    f_gen = pool.submit(vlib.tlc, "Gen_Convert", cfg["gen"], 8, xss="256m", tag="Gen_Convert")
+    f_gen = pool.submit(vlib.tlc, "Gen_Convert", cfg["gen"], 8, xss="256m", tag="Gen_Convert", env=JVM_MID)
 
     # 3. binding B inputs (generated while TLC runs)
     convs = gen_conv_cases(ck, cfg)
